@@ -44,6 +44,11 @@ def run_kinds(ctx, res, prop, fns, floor_subscripts, floor_resolved, rule_prefix
             continue
         if f.fq not in analysed_private:
             eng.analyze(f)  # never called with informative kinds: analyse with its documented parameter kinds
+    # functions documented to require labels 0..n-1: their subscripts by label are scoped out, but the contract says
+    # nothing about the order in which the nodes were inserted - analysed once more with the network as 'perm'
+    for f in fns:
+        if f.fq in POSITIONAL_BY_CONTRACT and f.params and not (ctx.only and ctx.only != f.qualname):
+            eng.analyze(f, {f.params[0]: ("net", "perm")})
     in_scope = {f.fq for f in fns}
     totals = KResult()
     seen = set()
@@ -69,7 +74,8 @@ def run_kinds(ctx, res, prop, fns, floor_subscripts, floor_resolved, rule_prefix
                 continue
             seen.add(key)
             if fq in POSITIONAL_BY_CONTRACT:
-                res.info.append({"scoped_out": fq, "reason": POSITIONAL_BY_CONTRACT[fq], "site": v.text})
+                if not pk:
+                    res.info.append({"scoped_out": fq, "reason": POSITIONAL_BY_CONTRACT[fq], "site": v.text})
                 continue
             res.add(mk_finding(prop, v.rule, fn, v.node, f"{fn.qualname}: {v.text} (container {fmt(v.container)}, index {fmt(v.index)}); the result depends on how nodes/edges are labelled or ordered", role=v.rule))
         for call, i in r.perm_pairs:
